@@ -5,7 +5,10 @@
    cases with libphysica's own back ends ("Gauss-Legendre_2", "Adaptive-Simpson") to rounding.
    The user's function of a case is an expression, optionally defined through an integral ('@' part of the case line,
    see harness/C13.cpp): then it calls the model's integrate_named itself; for the 1-D entry point this is the model's
-   integrate_reentrant, for the front ends (whose integrands are total functions in the model) the driver unwraps the result. *)
+   reentrant_integrand, for the front ends (whose integrands are total functions in the model) the driver unwraps the result.
+   Every case line is turned into a value of the model's type [call] and answered by the model's run_call; a session line
+   (several calls made one after the other by one process) by the model's run_session.  The model has no state: the value a
+   call has "in a fresh process" is its value. *)
 open Common
 
 let ascii_of_char c =
@@ -37,12 +40,11 @@ let stand_in (_ : backend) (g : float -> float res) (a : float) (b : float) : fl
 
 let no_mc _ _ _ _ = failwith "Monte-Carlo methods are modelled in C14"
 
-(* recorder of the arguments with which the user's function is called *)
-let n = ref 0 and digest = ref 0.0
-let mn = [| infinity; infinity; infinity |] and mx = [| neg_infinity; neg_infinity; neg_infinity |]
-let reset () = n := 0; digest := 0.0; Array.fill mn 0 3 infinity; Array.fill mx 0 3 neg_infinity
-let see k v = (if v < mn.(k) then mn.(k) <- v); (if v > mx.(k) then mx.(k) <- v)
-let put_rec dims = put_i !n; put_f !digest; for k = 0 to dims - 1 do put_f mn.(k); put_f mx.(k) done
+(* recorder of the arguments with which the user's function of one call is called *)
+type recd = { mutable n : int; mutable digest : float; mn : float array; mx : float array }
+let new_rec () = { n = 0; digest = 0.0; mn = [| infinity; infinity; infinity |]; mx = [| neg_infinity; neg_infinity; neg_infinity |] }
+let see rc k v = (if v < rc.mn.(k) then rc.mn.(k) <- v); (if v > rc.mx.(k) then rc.mx.(k) <- v)
+let put_rec rc dims = put_i rc.n; put_f rc.digest; for k = 0 to dims - 1 do put_f rc.mn.(k); put_f rc.mx.(k) done
 
 (* the user's function of a case *)
 exception Inner_stop of float res
@@ -65,6 +67,48 @@ let eval_user u x y z : float =
        | Ok i -> eval_fexpr u.e [| x; y; z; i |]
        | other -> raise (Inner_stop other))
 
+(* one call of a case line (the operation name has been read): the model's call, its recorder, its number of axes *)
+let build_call op r : float call * recd * int =
+  let m = parse_method (coq_string (word r)) in
+  let p = z_of_int (integer r) in
+  let rc = new_rec () in
+  match op with
+  | "named1d" ->
+      let a = num r in let b = num r in
+      let u = parse_user r in
+      let f = match u.inner with
+        | None -> (fun x -> rc.n <- rc.n + 1; rc.digest <- rc.digest +. x; see rc 0 x; Ok (eval_fexpr u.e [| x; 0.0; 0.0; 0.0 |]))
+        | Some (im, ip, lo, hi, inn) ->
+            let outer x i = rc.n <- rc.n + 1; rc.digest <- rc.digest +. x; see rc 0 x; eval_fexpr u.e [| x; 0.0; 0.0; i |] in
+            let inner x t = eval_fexpr inn [| x; 0.0; 0.0; t |] in
+            let flo x = eval_fexpr lo [| x; 0.0; 0.0; 0.0 |] and fhi x = eval_fexpr hi [| x; 0.0; 0.0; 0.0 |] in
+            reentrant_integrand fops stand_in im ip outer inner flo fhi in
+      (Call_1d (m, p, f, a, b), rc, 1)
+  | "nested2d" ->
+      let x1 = num r in let x2 = num r in let y1 = num r in let y2 = num r in
+      let u = parse_user r in
+      let f x y = rc.n <- rc.n + 1; rc.digest <- rc.digest +. (x +. 2.0 *. y); see rc 0 x; see rc 1 y; eval_user u x y 0.0 in
+      (Call_2d (m, p, f, x1, x2, y1, y2), rc, 2)
+  | "nested3d" ->
+      let x1 = num r in let x2 = num r in let y1 = num r in let y2 = num r in let z1 = num r in let z2 = num r in
+      let u = parse_user r in
+      let f x y z = rc.n <- rc.n + 1; rc.digest <- rc.digest +. (x +. 2.0 *. y +. 3.0 *. z); see rc 0 x; see rc 1 y; see rc 2 z;
+        eval_user u x y z in
+      (Call_3d (m, p, f, x1, x2, y1, y2, z1, z2), rc, 3)
+  | "spherical" ->
+      let r1 = num r in let r2 = num r in let c1 = num r in let c2 = num r in let f1 = num r in let f2 = num r in
+      let u = parse_user r in
+      let azmid = 0.5 *. (f1 +. f2) in
+      let f x y z =
+        rc.n <- rc.n + 1; rc.digest <- rc.digest +. (x +. 2.0 *. y +. 3.0 *. z);
+        let nrm = sqrt (x *. x +. y *. y +. z *. z) in
+        let dz = Float.atan2 y x -. azmid in
+        let az = azmid +. (dz -. 2.0 *. Float.pi *. Float.round (dz /. (2.0 *. Float.pi))) in
+        see rc 0 nrm; see rc 1 (z /. nrm); (if x <> 0.0 || y <> 0.0 then see rc 2 az);
+        eval_user u x y z in
+      (Call_spherical (m, p, f, r1, r2, c1, c2, f1, f2), rc, 3)
+  | o -> failwith ("unknown_op_" ^ o)
+
 let put_res = function
   | Ok v -> put_f v; put_f v; true
   | Exit -> put_w "EXIT"; false
@@ -73,47 +117,30 @@ let put_res = function
 
 let handler r =
   let op = word r in
-  let m = parse_method (coq_string (word r)) in
-  let p = z_of_int (integer r) in
-  reset ();
   try
-  match op with
-  | "named1d" ->
-      let a = num r in let b = num r in
-      let u = parse_user r in
-      let res = match u.inner with
-        | None ->
-            let f x = incr n; digest := !digest +. x; see 0 x; Ok (eval_fexpr u.e [| x; 0.0; 0.0; 0.0 |]) in
-            integrate_named fops stand_in m f a b p
-        | Some (im, ip, lo, hi, inn) ->
-            let outer x i = incr n; digest := !digest +. x; see 0 x; eval_fexpr u.e [| x; 0.0; 0.0; i |] in
-            let inner x t = eval_fexpr inn [| x; 0.0; 0.0; t |] in
-            let flo x = eval_fexpr lo [| x; 0.0; 0.0; 0.0 |] and fhi x = eval_fexpr hi [| x; 0.0; 0.0; 0.0 |] in
-            integrate_reentrant fops stand_in m p im ip outer inner flo fhi a b in
-      if put_res res then put_rec 1
-  | "nested2d" ->
-      let x1 = num r in let x2 = num r in let y1 = num r in let y2 = num r in
-      let u = parse_user r in
-      let f x y = incr n; digest := !digest +. (x +. 2.0 *. y); see 0 x; see 1 y; eval_user u x y 0.0 in
-      if put_res (integrate_2d fops stand_in no_mc m f x1 x2 y1 y2 p) then put_rec 2
-  | "nested3d" ->
-      let x1 = num r in let x2 = num r in let y1 = num r in let y2 = num r in let z1 = num r in let z2 = num r in
-      let u = parse_user r in
-      let f x y z = incr n; digest := !digest +. (x +. 2.0 *. y +. 3.0 *. z); see 0 x; see 1 y; see 2 z;
-        eval_user u x y z in
-      if put_res (integrate_3d fops stand_in no_mc m f x1 x2 y1 y2 z1 z2 p) then put_rec 3
-  | "spherical" ->
-      let r1 = num r in let r2 = num r in let c1 = num r in let c2 = num r in let f1 = num r in let f2 = num r in
-      let u = parse_user r in
-      let f x y z =
-        incr n; digest := !digest +. (x +. 2.0 *. y +. 3.0 *. z);
-        let nrm = sqrt (x *. x +. y *. y +. z *. z) in
-        let az = Float.atan2 y x in
-        let az = if az < 0.0 then az +. 2.0 *. Float.pi else az in
-        see 0 nrm; see 1 (z /. nrm); (if x <> 0.0 || y <> 0.0 then see 2 az);
-        eval_user u x y z in
-      if put_res (integrate_3d_spherical fops stand_in no_mc m f r1 r2 c1 c2 f1 f2 p) then put_rec 3
-  | o -> put_w ("MODELERR unknown_op_" ^ o)
-  with Inner_stop res -> Buffer.clear buf; first := true; ignore (put_res res)
+    if op = "session" then begin
+      let k = integer r in
+      let acc = ref [] in
+      for j = 0 to k - 1 do
+        if j > 0 then (let w = word r in if w <> ";;" then failwith "session_shape");
+        let op = word r in
+        acc := build_call op r :: !acc
+      done;
+      let calls = List.rev !acc in
+      let results = run_session fops stand_in no_mc (List.map (fun (c, _, _) -> c) calls) in
+      List.iteri (fun j res ->
+        let (_, rc, dims) = List.nth calls j in
+        if put_res res then begin
+          put_rec rc dims;
+          (match res with Ok v -> put_f v | _ -> ());
+          put_w "|"
+        end) results
+    end else begin
+      let (c, rc, dims) = build_call op r in
+      if put_res (run_call fops stand_in no_mc c) then put_rec rc dims
+    end
+  with
+  | Inner_stop res -> Buffer.clear buf; first := true; ignore (put_res res)
+  | Failure w -> Buffer.clear buf; first := true; put_w ("MODELERR " ^ w)
 
 let () = run handler
